@@ -411,7 +411,7 @@ func runC20(cfg *config) error {
 				c.Err = "worker output unreadable: " + err.Error()
 				c.Unanswered++
 			}
-		case <-time.After(10 * time.Minute):
+		case <-time.After(2 * time.Minute):
 			_ = cmd.Process.Kill()
 			c.Err = "stress round did not finish (deadlock?)"
 			c.Unanswered++
